@@ -370,6 +370,25 @@ pub fn run_rows(obs: &mut Obs, c: &Case, pred: &dyn Pred, spec: &Spec, qr: case:
         }
     }
 
+    // ---- big batch across plausible internal block sizes: the distinct rows tiled (pseudo-randomly) to n rows
+    if let Some((label, n)) = case::big_size(c.big.0, c.big.1) {
+        obs.class("big_batch");
+        obs.class(label);
+        obs.class_if(n > 1024 && n % 1024 != 0, "big_batch_over_1024_not_multiple");
+        let (tile, shuffled) = case::big_indices(c.seed, n, m);
+        let big = case::select_rows(&rows, &tile, p);
+        if let Some(out) = obs.call("predict(big batch)", || pred.one(&big)) {
+            check_against_reference(obs, spec, "big-batch", "big tiled batch", &out, &rows, &single, &tile, spec.exact_same_layout);
+        }
+        // the same multiset in another order, in Fortran layout
+        let std_layout = case::select_rows(&rows, &shuffled, p);
+        let mut big2 = Array2::zeros(ndarray::ShapeBuilder::f((n, p)));
+        big2.assign(&std_layout);
+        if let Some(out) = obs.call("predict(big batch)", || pred.one(&big2)) {
+            check_against_reference(obs, spec, "big-batch", "big permuted batch (Fortran layout)", &out, &rows, &single, &shuffled, spec.exact_cross_layout);
+        }
+    }
+
     Some(RunInfo { q, rows, batch: base.by_ref, single })
 }
 
